@@ -57,6 +57,7 @@ const preludeAxioms = `(assert (forall ((b Int) (s Int) (i Int) (f Int)) (! (= (
 (assert (= (slen_s str_empty) 0))
 (assert (forall ((q BSeq)) (! (>= (seq_len q) 0) :pattern ((seq_len q)))))
 (assert (= (seq_len seq_empty) 0))
+(assert (forall ((q BSeq)) (! (=> (= (seq_len q) 0) (= q seq_empty)) :pattern ((seq_len q)))))
 (assert (= (seq_of_str str_empty) seq_empty))
 (assert (forall ((a (Array Int Int)) (o Int) (n Int)) (! (=> (>= n 0) (= (seq_len (seqof a o n)) n)) :pattern ((seqof a o n)))))
 (assert (forall ((a (Array Int Int)) (o Int) (n Int) (i Int)) (! (=> (and (<= 0 i) (< i n)) (= (seq_at (seqof a o n) i) (select a (+ o i)))) :pattern ((seq_at (seqof a o n) i)))))
@@ -83,6 +84,8 @@ const preludeAxioms = `(assert (forall ((b Int) (s Int) (i Int) (f Int)) (! (= (
 (assert (forall ((a (Array Int Int)) (o Int) (n Int) (lo Int) (hi Int)) (! (=> (and (<= 0 lo) (<= lo hi) (<= hi n)) (= (seq_sub (seqof a o n) lo hi) (seqof a (+ o lo) (- hi lo)))) :pattern ((seq_sub (seqof a o n) lo hi)))))
 (assert (forall ((q BSeq) (a Int) (b Int) (c Int)) (! (=> (and (<= 0 a) (<= a b) (<= b c) (<= c (seq_len q))) (= (seq_cat (seq_sub q a b) (seq_sub q b c)) (seq_sub q a c))) :pattern ((seq_cat (seq_sub q a b) (seq_sub q b c))))))
 (assert (forall ((q BSeq) (a Int)) (! (= (seq_sub q a a) seq_empty) :pattern ((seq_sub q a a)))))
+(assert (forall ((a BSeq) (b BSeq) (lo Int) (hi Int)) (! (=> (and (<= 0 lo) (<= lo hi) (<= hi (seq_len a))) (= (seq_sub (seq_cat a b) lo hi) (seq_sub a lo hi))) :pattern ((seq_sub (seq_cat a b) lo hi)))))
+(assert (forall ((a BSeq) (b BSeq) (lo Int) (hi Int)) (! (=> (and (<= (seq_len a) lo) (<= lo hi) (<= hi (+ (seq_len a) (seq_len b)))) (= (seq_sub (seq_cat a b) lo hi) (seq_sub b (- lo (seq_len a)) (- hi (seq_len a))))) :pattern ((seq_sub (seq_cat a b) lo hi)))))
 (assert (forall ((q BSeq) (a Int) (b Int) (c Int) (d Int)) (! (=> (and (<= 0 a) (<= a b) (<= b (seq_len q)) (<= 0 c) (<= c d) (<= d (- b a))) (= (seq_sub (seq_sub q a b) c d) (seq_sub q (+ a c) (+ a d)))) :pattern ((seq_sub (seq_sub q a b) c d)))))
 (assert (forall ((q BSeq) (n Int)) (! (=> (<= n 0) (= (seq_sub q 0 n) seq_empty)) :pattern ((seq_sub q 0 n)))))
 (assert (forall ((b Int)) (! (=> (>= b 0) (= (bor 0 b) b)) :pattern ((bor 0 b)))))
